@@ -8,6 +8,7 @@ pub mod ctlrun;
 pub mod c03;
 pub mod c04;
 pub mod c05;
+pub mod c06;
 pub mod c08;
 pub mod c09;
 pub mod c11;
@@ -31,6 +32,11 @@ pub fn run(ctx: &mut Ctx) -> bool {
         "C05" => {
             ctx.rule = c05::RULE.into();
             c05::run(ctx)
+        }
+        "C06" => {
+            ctx.rule = c06::RULE.into();
+            crate::util::start_watchdog("C06".into(), 120);
+            c06::run(ctx)
         }
         "C08" => {
             ctx.rule = c08::RULE.into();
